@@ -5,7 +5,7 @@ from . import _corecommon as cc
 from ._corecommon import LEVEL, REAL, STUB, SHRINK, LEVEL_NOTE, simplify  # noqa
 
 ID = "C04"
-TIERS = {"quick": {"runs": 64}, "thorough": {"runs": 1500}}
+TIERS = {"quick": {"runs": 64}, "thorough": {"runs": 600}}
 WANT = ("c04", "c02.ref_with_open_bank", "c02.zqc_with_open_bank", "c05.hang")
 RULE = ("one case = one seeded whole-core scenario under saturating / single-bank / all-write / all-read / ping-pong / idle traffic over many "
         "refresh intervals; REF and ZQC timestamps from the DFI bus are compared with the datasheet tREFI in ns (not the cycle count handed to the "
